@@ -304,14 +304,14 @@ class C02(TraceProp):
     sections = ('txs', 'mgr')
     seg_fields = ('C02',)
     shapes = ['articles', 'articles_excl', 'comment', 'comment', 'm2m', 'joined', 'composite']
-    weights = {'manual_tx': 2, 'flush': 7, 'setrel': 4, 'link': 4, 'set_same': 4}
+    weights = {'manual_tx': 2, 'flush': 7, 'setrel': 4, 'link': 4, 'set_same': 4, 'sp_begin': 2, 'sp_commit': 3, 'commit': 8}
     rule = ('random session programs with versioned and non-versioned changes (non-versioned neighbour class, '
             'relationship-only changes, same-value sets, excluded-column-only changes) split arbitrarily into '
             'flushes and commits, with manual early creation of the transaction record; transaction table, the '
             'distinct ids in all version / association-version tables and the current transaction of the unit of '
             'work compared with the model after every step; C02.Holds evaluated on the real tables per database '
             'transaction; non-trivial = >= 2 transactions with a versioned change or >= 2 flushes in one transaction')
-    needs_tags = ['multi_flush_tx', 'multi_tx', 'ev:manualtx', 'shape:comment', 'no_record_tx']
+    needs_tags = ['multi_flush_tx', 'multi_tx', 'ev:manualtx', 'shape:comment', 'no_record_tx', 'ev:spcommit']
 
     def case_tags(self, case, obs, out):
         TraceProp.case_tags(self, case, obs, out)
@@ -465,7 +465,9 @@ class C10(TraceProp):
     sections = ('assoc', 'versions', 'mgr')
     seg_fields = ('C10',)
     shapes = ['m2m']
-    weights = {'link': 10, 'unlink': 7, 'commit': 6, 'flush': 4, 'add': 5, 'del': 2, 'set': 2, 'rollback': 1, 'setrel': 0}
+    weights = {'link': 16, 'unlink': 8, 'commit': 4, 'flush': 8, 'add': 7, 'del': 1, 'set': 1, 'rollback': 1, 'setrel': 0,
+               'set_same': 0, 'set_null': 0, 'query': 0}
+    steps_quick = (15, 25, 40)
     rule = ('random histories of linking and unlinking on a many-to-many shape (single and several pairs per transaction, from '
             'either side through the backref, pairs removed and re-added in later transactions, parents or targets deleted, '
             'rollbacks); association-version rows, pending statements and version rows compared with the model after every '
@@ -481,6 +483,34 @@ class C10(TraceProp):
         case = TraceProp.make_case(self, rng, tier)
         case['autoflush'] = False
         return case
+
+    def gen(self, rng, tier):
+        for c in TraceProp.gen(self, rng, tier):
+            yield c
+        # structured family: all entities exist; every transaction changes several pairs in 2-3 flushes
+        from .. import envs
+        n = 40 if tier == 'quick' else 1500
+        pairs = [(a, t) for a in (1, 2, 3) for t in (1, 2, 3)]
+        for _ in range(n):
+            spec = envs.shape_m2m({'strategy': rng.choice(['validity', 'subquery'])}, plugins=[])
+            spec['shape'] = 'm2m'
+            prog = [['add', 'Article', [i], {'name': i}] for i in (1, 2, 3)] + [['add', 'Tag', [i], {'name': i}] for i in (1, 2, 3)] + [['commit']]
+            linked = set()
+            for _tx in range(rng.choice([1, 2, 3])):
+                for _fl in range(rng.choice([2, 2, 3])):
+                    for (a, t) in rng.sample(pairs, rng.choice([1, 2, 2, 3])):
+                        if (a, t) in linked:
+                            if rng.random() < 0.5:
+                                prog.append(['unlink', rng.choice([['Article', [a], 'tags', 'Tag', [t]], ['Tag', [t], 'articles', 'Article', [a]]])][1:][0])
+                                prog[-1] = ['unlink'] + prog[-1]
+                                linked.discard((a, t))
+                        else:
+                            side = rng.choice([['Article', [a], 'tags', 'Tag', [t]], ['Tag', [t], 'articles', 'Article', [a]]])
+                            prog.append(['link'] + side)
+                            linked.add((a, t))
+                    prog.append(['flush'])
+                prog.append(['commit'])
+            yield {'spec': spec, 'autoflush': False, 'program': prog, 'family': 'multi_pair_multi_flush'}
 
     def case_tags(self, case, obs, out):
         TraceProp.case_tags(self, case, obs, out)
